@@ -41,7 +41,10 @@ Definition check_case (c : ccase) : bool :=
   match c with
   | CHist lim h log final =>
       list_eqb (list_eqb upd_eqb) (history_log lim [] h) log &&
-      versions_agree (run_history lim [] h) final
+      versions_agree (run_history lim [] h) final &&
+      (* some call raised iff the real manager refused some update *)
+      Bool.eqb (raised_in lim [] h)
+               (existsb (existsb (fun u => match snd u with None => true | Some _ => false end)) log)
   | CJob lim k o v n =>
       let '(o', v', n') := run_job lim 1 (failing k) in
       outcome_eqb o' o && N.eqb v' v && Nat.eqb n' n
